@@ -234,6 +234,13 @@ func (s *pipeStream[T]) Next(ctx context.Context) (T, error) {
 	case item := <-s.c:
 		return item, nil
 	case <-s.senderDone:
+		// select may choose this arm while values sent before the sender closed are still
+		// buffered in s.c; those must be delivered before the end or the close error.
+		select {
+		case item := <-s.c:
+			return item, nil
+		default:
+		}
 		err := *s.senderErr
 		if err != nil {
 			return zero, err
